@@ -446,9 +446,10 @@ def check_conditioning_sequences(case, ctx):
     dim_seq = {d: c for d, c in case["sequences"]["dim_seq"]}
     total = sum(dim_seq.values())
     matching = sampler.matching_sequences
-    require(matching is True or matching is False,
+    require(isinstance(matching, (bool, np.bool_)),
             lambda: "matching_sequences is %r after sampling from a degree and a size sequence"
             % (matching,), key="flag")
+    matching = bool(matching)
     ctx.label("matching_sequences=%r" % matching)
     tables = []
     for j, h in enumerate(samples):
